@@ -1,9 +1,13 @@
 import Lemmas.NotifierDelivery
 import Lemmas.NotifierConc
 import Lemmas.NotifierReentry
+import Lemmas.NotifierReentryN
 import Lemmas.NotifierBatchEn
 import Lemmas.NotifierMerge
 import Lemmas.NotifierJudge
+import Lemmas.NotifierCycles
+import Lemmas.NotifierIndep
+import Lemmas.NotifierHeapRef
 /-! # C17 — notifications reach exactly the registered targets, once, in priority order
 
 Property theorems only.  The executable model is `Model/Notifier.lean` (`Nt.step`, run by `drv_c17` against the Go
@@ -130,6 +134,77 @@ theorem merge_spec (pan : Nat → Bool) (ops : List Op) (i m : Nat) (n : Name) (
     have : ¬ m = i := fun e => him e.symm
     simp [step, him, World.set, this]
 
+/-! ### notifiers are independent of each other (the clause of regressions ind6-c17-a / ind7-c17-a: a merge must COPY) -/
+
+/-- **after any history — merges in any direction included — what is done to OTHER notifiers changes nothing of notifier
+    `i`**: for every continuation `rest` none of whose operations writes `i` (`Op.writes`: Register / Unregister / Reset /
+    SetEnabled / Start / End on other notifiers, and `RegisterFromNotifier` INTO other notifiers, also FROM `i`), the state
+    of `i`, every delivery list of `i` and the registration relation of `i` are what they were.  So after
+    `n₁.RegisterFromNotifier(n₀)` an `Unregister` / `Register` / `Reset` on `n₁` does not remove, add or re-prioritise
+    anything `n₀` delivers — and vice versa (take `i := 1`). -/
+theorem merge_leaves_notifiers_independent (pan : Nat → Bool) (ops rest : List Op) (i : Nat)
+    (h : ∀ op ∈ rest, op.writes ≠ i) :
+    (run pan (ops ++ rest)).1 i = (run pan ops).1 i ∧
+    (∀ raw, notify ((run pan (ops ++ rest)).1 i) raw = notify ((run pan ops).1 i) raw) ∧
+    (∀ n t, specRun (ops ++ rest) i n t = specRun ops i n t) := by
+  have h1 : (run pan (ops ++ rest)).1 i = (run pan ops).1 i := by
+    show (runFrom pan World.init (ops ++ rest)).1 i = _
+    rw [runFrom_append_fst]
+    exact runFrom_others pan rest _ i h
+  refine ⟨h1, fun raw => by rw [h1], fun n t => ?_⟩
+  rw [← registered_spec pan, ← registered_spec pan, h1]
+
+/-- the hypothesis is met by the history of the regression: merge n₀ into n₁, then unregister / register / reset on n₁ -/
+example : ∀ op ∈ [Op.merge 1 0, .unregister 1 5, .register 1 2 0 [[97]], .reset 1, .merge 2 0, .startBatch 1], op.writes ≠ 0 := by
+  decide
+
+/-- WHY it holds for the code, in the model where it can fail (`Model/NotifierHeap.lean`: inner maps are heap cells, a
+    production map holds references): over every history whose merges copy the inner maps (`HOp.deep`, the code), no cell
+    is ever referenced by two notifiers and every referenced cell is allocated (`NtH.Sep`), and therefore an operation
+    leaves the dereferenced production map of every notifier it does not write untouched -/
+theorem deep_merge_keeps_notifiers_separate (ops : List NtH.HOp) (hd : ∀ op ∈ ops, op.deep = true) :
+    NtH.Sep (NtH.hrun ops) ∧
+    ∀ op : NtH.HOp, op.deep = true → ∀ j, j ≠ op.target →
+      NtH.deref (NtH.hstep (NtH.hrun ops) op) j = NtH.deref (NtH.hrun ops) j := by
+  have hs : NtH.Sep (NtH.hrun ops) := NtH.sep_hrunFrom ops _ NtH.sep_init hd
+  exact ⟨hs, fun op hop j hj => NtH.deref_of_frame _ _ _ j hs (NtH.frame_hstep _ hs op hop) hj⟩
+
+/-- **the value model is a sound abstraction of Go's reference semantics — because the merge copies.**  Run the heap-cell
+    model (`Model/NotifierHeap.lean`: inner maps are cells, production maps hold references, `Register` / `Unregister` mutate
+    cells in place, `RegisterFromNotifier` lets an unknown name adopt a FRESH COPY of the source's cell) alongside any
+    history of the model the driver executes (`NtH.hrunAlong`: each `Nt.Op` as the heap operations `NtH.toH` it amounts to).
+    Then at every point no cell is shared between notifiers or names (`NtH.Sep`), and the production map of every notifier
+    with its references followed IS, as a list, the production map of `Nt.run` — so every theorem about deliveries above
+    speaks about the reference-level semantics too.  (With the shallow merge the statement is false:
+    `shared_inner_map_refuted`.) -/
+theorem heap_model_refines_value_model (pan : Nat → Bool) (ops : List Op) :
+    NtH.Sep (NtH.hrunAlong pan World.init NtH.HWorld.init ops) ∧
+    ∀ i, NtH.deref (NtH.hrunAlong pan World.init NtH.HWorld.init ops) i = ((run pan ops).1 i).prod :=
+  NtH.ref_run pan ops World.init NtH.HWorld.init NtH.ref_init
+
+/-- CONTRAST (regressions ind6-c17-a, ind7-c17-a: `maps.Clone` of the outer map only).  `NtH.shareHist d`: notifier 0
+    registers target 1 (priority 5) for "a"; notifier 1 merges notifier 0, registers target 2 (priority 7) for "a", then
+    unregisters target 1.  With the SHALLOW merge (`d = false`) both production maps reference the same cell 0: the
+    `Register` on notifier 1 makes notifier 0 deliver to target 2, the `Unregister` on notifier 1 removes target 1 from
+    notifier 0.  With the code's merge (`d = true`) notifier 1 gets its own cell 1, notifier 0 keeps target 1 and never sees
+    target 2, and both dereferenced maps are those of the value model (`Nt.run`, what the driver executes). -/
+theorem shared_inner_map_refuted :
+    ((NtH.hrun ((NtH.shareHist false).take 2)).pm 0, (NtH.hrun ((NtH.shareHist false).take 2)).pm 1) =
+      ([([[97]], 0)], [([[97]], 0)]) ∧
+    lookup (NtH.deref (NtH.hrun ((NtH.shareHist false).take 3)) 0) [[97]] 2 = some 7 ∧
+    lookup (NtH.deref (NtH.hrun (NtH.shareHist false)) 0) [[97]] 1 = none ∧
+    ((NtH.hrun ((NtH.shareHist true).take 2)).pm 0, (NtH.hrun ((NtH.shareHist true).take 2)).pm 1) =
+      ([([[97]], 0)], [([[97]], 1)]) ∧
+    lookup (NtH.deref (NtH.hrun (NtH.shareHist true)) 0) [[97]] 1 = some 5 ∧
+    lookup (NtH.deref (NtH.hrun (NtH.shareHist true)) 0) [[97]] 2 = none ∧
+    NtH.deref (NtH.hrun (NtH.shareHist true)) 0 =
+      ((run nobody [.register 0 1 5 [[97]], .merge 1 0, .register 1 2 7 [[97]], .unregister 1 1]).1 0).prod ∧
+    NtH.deref (NtH.hrun (NtH.shareHist true)) 1 =
+      ((run nobody [.register 0 1 5 [[97]], .merge 1 0, .register 1 2 7 [[97]], .unregister 1 1]).1 1).prod ∧
+    NtH.deref (NtH.hrun (NtH.shareHist false)) 0 ≠
+      ((run nobody [.register 0 1 5 [[97]], .merge 1 0, .register 1 2 7 [[97]], .unregister 1 1]).1 0).prod := by
+  refine ⟨by decide, by decide, by decide, by decide, by decide, by decide, by decide, by decide, by decide⟩
+
 /-- the unrepaired merge loop (destination set overlaid on itself) loses the pair — the seeded regression —,
     the loop of the model (and of the repository now) keeps it -/
 example : lookup ([([[97]], [(2, 5)])].foldl stepMergeOrig [([[97]], [(1, 0)])]) [[97]] 2 = none ∧
@@ -212,6 +287,49 @@ theorem batch_abandoned_by_reset (s : NSt) :
     endBatch (reset s) = (reset s, []) ∧ (reset s).level = 0 ∧ (reset s).current = [] ∧
     endBatch (setEnabled s false) = (setEnabled s false, []) ∧ startBatch (setEnabled s false) = (setEnabled s false, []) :=
   reset_abandons_batch s
+
+/-- **two batch cycles in a row** (the clause of regression ind7-c17-b).  The contract of the code: `BatchMode(false)` goes
+    to the snapshot the outermost `StartBatch` of the SAME cycle took (`currentBatch`), which `EndBatch` clears.  So: after any
+    history, a complete cycle `StartBatch; mid₁; EndBatch`, and any stretch `between` without Start/End/Reset/SetEnabled of
+    `n` (`Nt.quiet`: Register, Unregister — also of every batch target of the first cycle —, merges, notifications, anything
+    on other notifiers), the NEXT cycle sends `BatchMode(true)` and, at its matching end, `BatchMode(false)` to exactly the
+    batch-capable targets registered at ITS start — nothing of the first cycle's snapshot survives; in particular if no
+    batch-capable target is registered any more, both broadcasts of the second cycle are empty -/
+theorem batch_cycles_do_not_leak (pan : Nat → Bool) (ops : List Op) (n : Nat) (mid₁ between mid₂ : List Op)
+    (he : ((run pan ops).1 n).enabled = true) (hl : ((run pan ops).1 n).level = 0)
+    (hm₁ : matched n 0 mid₁ = true) (hq : quiet n between = true) (hm₂ : matched n 0 mid₂ = true) :
+    let h₁ := ops ++ .startBatch n :: (mid₁ ++ .endBatch n :: between)
+    let w₂ := (run pan h₁).1
+    let r1 := step pan w₂ (.startBatch n)
+    let r2 := runFrom pan r1.1 mid₂
+    let r3 := step pan r2.1 (.endBatch n)
+    r1.2 = batchAll pan n true (w₂ n).batch ∧ NoBatchEvents n r2.2 ∧ r3.2 = batchAll pan n false (w₂ n).batch ∧
+    (∀ t, t ∈ (w₂ n).batch ↔ batchCapable t = true ∧ ∃ nm, (specRun h₁ n nm t).isSome) ∧
+    ((∀ t nm, batchCapable t = true → specRun h₁ n nm t = none) → r1.2 = [] ∧ r3.2 = []) := by
+  intro h₁ w₂ r1 r2 r3
+  have hw₂ : w₂ = (runFrom pan (run pan ops).1 (.startBatch n :: (mid₁ ++ .endBatch n :: between))).1 := by
+    show (runFrom pan World.init (ops ++ _)).1 = _
+    rw [runFrom_append_fst]; rfl
+  obtain ⟨_, he₂, hl₂, _⟩ := after_cycle pan (run pan ops).1 (winv_run pan ops) n mid₁ between he hl hm₁ hq
+  rw [← hw₂] at he₂ hl₂
+  obtain ⟨a, b, c, _, _, f⟩ := batch_nesting pan h₁ n mid₂ he₂ hl₂ hm₂
+  refine ⟨a, b, c, f, fun hnone => ?_⟩
+  have hb : (w₂ n).batch = [] := by
+    cases hbt : (w₂ n).batch with
+    | nil => rfl
+    | cons t rest =>
+      obtain ⟨hcap, nm, hs⟩ := (f t).mp (by rw [hbt]; simp)
+      rw [hnone t nm hcap] at hs; cases hs
+  exact ⟨by rw [a, hb]; rfl, by rw [c, hb]; rfl⟩
+
+/-- CONTRAST: with an `EndBatch` that leaves `currentBatch` in place (`Nt.endBatchKeep`, regression ind7-c17-b; the model's
+    and the code's `StartBatch` do not touch it when no batch target is registered) the history Register(t1, "a");
+    StartBatch; EndBatch; Unregister(t1); StartBatch; EndBatch sends the second `BatchMode(false)` to the unregistered t1;
+    the code's `EndBatch` sends it to nobody.  The hypotheses of `batch_cycles_do_not_leak` are met by that history. -/
+theorem current_batch_surviving_end_refuted :
+    twoCycles endBatch = ([1], []) ∧ twoCycles endBatchKeep = ([1], [1]) ∧
+    matched 0 0 [] = true ∧ quiet 0 [.unregister 0 1, .register 1 1 0 [[97]], .merge 1 0, .startBatch 1] = true := by
+  decide
 
 /-- `maps_consistent`, over all histories: the production map and the name map are mutual inverses (this is what makes
     `Unregister` complete), the batch set is exactly the set of registered batch-capable targets and has no duplicates,
@@ -380,6 +498,40 @@ theorem reentrant_histories_are_histories (pan : Nat → Bool) (l : List ReOp) :
   refine ⟨h, fun i n t => ?_⟩
   rw [h]
   exact registered_spec pan _ i n t
+
+/-- **re-entrant calls at ANY depth** (model `Model/NotifierReentryN.lean`; `Nt.stepQ` is what `drv_c17` executes): the
+    re-entrant targets hold a QUEUE `q` of armed operations; every re-entrant callback pops the head and performs it as a
+    complete exported call whose own callbacks may pop the next one — calls nest as deep as the queue is long.  Whatever
+    the depth: (1) some prefix `q.take k` of the queue fired, the rest stays armed, and the world afterwards is the world of
+    the PLAIN sequential history "the outer call, then the fired operations in queue order" (`Nt.runFrom`) — so it is a
+    reachable world and every over-all-histories theorem applies; (2) the outer call's own events (same targets, same order,
+    same recovery reports) are all there, in order: nothing a nested call does, at any depth, takes a delivery away from
+    the snapshot of an outer call.  Proved by induction on the nesting depth (`Nt.stepQN_good`). -/
+theorem reentrant_deep_spec (pan : Nat → Bool) (w : World) (q : List Op) (op : Op) :
+    (∃ k, (stepQ pan (w, q) op).1 = ((runFrom pan w (op :: q.take k)).1, q.drop k)) ∧
+    (step pan w op).2.Sublist (stepQ pan (w, q) op).2 :=
+  ⟨(stepQN_good pan q.length).1 w q op, (stepQN_good pan q.length).2 w q op⟩
+
+/-- with at most one operation armed the queue model is exactly `Nt.stepRe`, the model of `reentrant_call_spec` (which
+    says more: where the nested events are spliced in, and that the operation fires iff a re-entrant callback is made) -/
+theorem reentrant_depth_one_is_stepRe (pan : Nat → Bool) (w : World) (o : Option Op) (op : Op) :
+    stepQ pan (w, o.toList) op = (((stepRe pan (w, o) op).1.1, (stepRe pan (w, o) op).1.2.toList), (stepRe pan (w, o) op).2) :=
+  stepQ_one pan w o op
+
+/-- depth two, concretely, and the depth matters: target 10 (batch-capable, re-entrant from `BatchMode`) is registered
+    with notifiers 0 and 1; armed: `StartBatch` on notifier 1, then `Unregister(target 10)` on notifier 0.  The outer
+    `StartBatch` on notifier 0 calls `BatchMode(true)` on target 10, which starts the batch of notifier 1, whose
+    `BatchMode(true)` call on target 10 unregisters it from notifier 0: both fired, target 10 is gone from notifier 0's
+    registrations but still in its current batch (it will get the matching `BatchMode(false)`).  With nesting limited to
+    one level (`stepQN … 1`) the second operation stays armed.  (`Nt.deepWorld`, `Nt.deepQueue`.) -/
+theorem reentrant_depth_two_example :
+    (stepQ nobody (deepWorld, deepQueue) (.startBatch 0)).2 = [Event.batchMode 0 10 true, Event.batchMode 1 10 true] ∧
+    (stepQ nobody (deepWorld, deepQueue) (.startBatch 0)).1.2.length = 0 ∧
+    lookup ((stepQ nobody (deepWorld, deepQueue) (.startBatch 0)).1.1 0).prod [[97]] 10 = none ∧
+    ((stepQ nobody (deepWorld, deepQueue) (.startBatch 0)).1.1 0).current = [10] ∧
+    ((stepQ nobody (deepWorld, deepQueue) (.startBatch 0)).1.1 1).level = 1 ∧
+    (stepQN nobody 1 (deepWorld, deepQueue) (.startBatch 0)).1.2.length = 1 := by
+  refine ⟨by decide, by decide, by decide, by decide, by decide, by decide⟩
 
 /-- the snapshot matters (CONTRAST): in `Nt.reWorld` targets 6 (priority 5, re-entrant) and 0 (priority 1) are registered
     for "a"; the armed operation is `Unregister(target 0)`.  The code's loop (`stepRe`) still calls target 0 — it is in
